@@ -72,13 +72,14 @@ def deepShow (r : Result) : String :=
   | .fault => "fault"
   | .null => "deep null"
 
-/-- one op token of an `own` history: `n<v>` `a<v><w>` `r<v><j>` `e<v><w>` `c<v>` `k<v><w><j>` `s<v><w>` `d<v>` `u<v><w>` -/
+/-- one op token of an `own` history: `n<v>` `a<v><w>` `i<v><w><j>` `r<v><j>` `e<v><w>` `c<v>` `k<v><w><j>` `s<v><w>` `d<v>` `u<v><w>` -/
 def ownOp (t : String) : Option AslModel.XmlOwn.Op :=
   let d (c : Char) : Option Nat := if c.isDigit then some (c.toNat - 48) else none
   match t.toList with
   | ['n', v] => do pure (.new ((← d v) % 4))
   | ['a', v, w] => do pure (.append ((← d v) % 4) ((← d w) % 4))
   | ['r', v, j] => do pure (.remove ((← d v) % 4) (← d j))
+  | ['i', v, w, j] => do pure (.insert ((← d v) % 4) ((← d w) % 4) (← d j))
   | ['e', v, w] => do pure (.removeE ((← d v) % 4) ((← d w) % 4))
   | ['c', v] => do pure (.clear ((← d v) % 4))
   | ['k', v, w, j] => do pure (.child ((← d v) % 4) ((← d w) % 4) (← d j))
